@@ -579,7 +579,7 @@ def run(ctx):
                 shutil.rmtree(root, ignore_errors=True)
 
         # ---- phase random -----------------------------------------------------------------------
-        N = ctx.pick(260, 2500)  # per shard
+        N = ctx.pick(260, 1800)  # per shard
         for i, rng in ctx.cases(N, 'random'):
             root = tempfile.mkdtemp(prefix='r-', dir=scratch_parent)
             try:
@@ -757,3 +757,38 @@ def gen_case(rng, root):
         'jitter': rng.random() < 0.6, 'jitter_seed': rng.randrange(1 << 30), 'single_not_list': rng.random() < 0.5,
     }
     return case, pre
+
+
+# --------------------------------------------------------------------------------------------------
+# Validation record (scratch worktree /tmp/scratch-fs at HEAD 78296c9bd, quick tier, seed 0; removed afterwards)
+#
+# Unchanged tree: HELD for VERIF_SEED 0..4 in both tiers (no violation, no known finding).
+#
+# Breaks tried, one at a time (file: edit -> result, first mechanism keys printed):
+#  1. copier.py  this_part_size = rem - 1 for the last part (DESIGN: off-by-one in the last part's size)
+#        -> exit 1  multipart/last-part-size-wrong
+#  2. copier.py  this_part_size = rem if i == n_parts - 1 else part_size   (own, subtle: last part empty ONLY when the
+#                size is an exact multiple of the part size)
+#        -> exit 1  multipart/last-part-size-wrong
+#  3. copier.py  Transfer.__init__: INFER_DEST + trailing slash => DEST_IS_TARGET (DESIGN: trailing slash treated as target)
+#        -> exit 1  dest/misplaced, copy/file-missing, copy/unexpected-path-created, error/spurious/IsADirectoryError, ...
+#  4. copier.py  _full_dest: url_basename(self.src) without rstrip('/') (own, subtle: wrong only for sources with a trailing slash)
+#        -> exit 1  dest/misplaced, copy/file-missing, error/not-raised/NotADirectoryError, ...
+#  5. copier.py  _copy_part reads every buffer of a part from the part's start (own, subtle: wrong only when part > buffer)
+#        -> exit 1  multipart/part-content-wrong
+#  6. local_fs.py multi_part_create opens the destination 'ab' instead of truncating (own: wrong only when overwriting a longer file)
+#        -> exit 1  multipart/size-mismatch, multipart/last-part-size-wrong
+#  7. copier.py  SourceCopier.copy: FileNotFoundError no longer raised for a non-directory source with a trailing slash
+#        -> exit 1  error/not-raised/FileNotFoundError
+#  8. local_fs.py LocalMultiPartCreate.create_part seeks one byte early for the last of >= 3 parts (own, subtle)
+#        -> exit 1  multipart/size-mismatch, multipart/last-part-size-wrong
+#  9. copier.py  `size <= part_size` -> `size < part_size` (a file of exactly one part size goes through multi-part with one part)
+#        -> exit 0: behaviour-preserving mutant (destination still byte-identical); silence is the correct answer
+#
+# Observations that are NOT C22 violations (reported to the lead):
+#  * Copier.copy(fs, sema, [t1, t2], return_exceptions=True) copies nothing: bounded_gather2(return_exceptions=True,
+#    cancel_on_error=True) raises ValueError, which is stored in the CopyReport.  No production caller passes
+#    return_exceptions=True (copy.py and hailtop/fs/router_fs.py use the default), so the monitor drives the default path.
+#  * A missing source *below a regular file* (src/a/nope with src/a a file) raises NotADirectoryError (ENOTDIR from
+#    os.stat) rather than FileNotFoundError; the rules do not say which, the model accepts either.
+# --------------------------------------------------------------------------------------------------
